@@ -109,3 +109,116 @@ func pschedFile(c *fw.Ctx, out []byte, err error) {
 		c.Report(v.Sig, v.Desc, v.Case)
 	}
 }
+
+// ---- non-interference of operations on disjoint objects (internal/interf, statement-level scheduling points) ------
+
+type interfCase struct {
+	Kind     string `json:"kind"`
+	A        string `json:"a"`
+	B        string `json:"b"`
+	Schedule []int  `json:"schedule"`
+	Bound    int    `json:"bound"`
+}
+
+type interfReport struct {
+	Pairs []struct {
+		A, B       string
+		Bound      int
+		Schedules  int
+		Points     int
+		CapHits    int
+		Exhaustive bool
+	} `json:"pairs"`
+	Violations []struct {
+		Sig  string     `json:"sig"`
+		Desc string     `json:"desc"`
+		Case interfCase `json:"case"`
+	} `json:"violations"`
+	Infra string `json:"infra"`
+	Cap   int    `json:"cap"`
+}
+
+func interfBinary() string {
+	exe, _ := os.Executable()
+	return filepath.Join(filepath.Dir(exe), "vsched-yield")
+}
+
+// interfParts worker shards run one part of the pairs each.
+const interfParts = 4
+
+// interfRun explores the interleavings of the operation pairs that belong to a property: the last interfParts
+// worker shards run one part each (a single-shard run does all).
+func interfRun(c *fw.Ctx, prop string) {
+	part, parts := c.NShards-1-c.Shard, interfParts
+	if c.NShards < interfParts {
+		part, parts = 0, 1
+		if c.Shard != c.NShards-1 {
+			return
+		}
+	} else if part >= interfParts {
+		return
+	}
+	bin := interfBinary()
+	if _, err := os.Stat(bin); err != nil {
+		c.Note("statement-level interleavings of operations on disjoint objects skipped: " + bin + " not built")
+		return
+	}
+	tier := "quick"
+	if c.Thorough() {
+		tier = "thorough"
+	}
+	out, err := exec.Command(bin, "interf", tier, fmt.Sprint(part), fmt.Sprint(parts), c.Scratch, prop).CombinedOutput()
+	interfFile(c, out, err)
+}
+
+func interfReplay(c *fw.Ctx, cas interfCase) {
+	j, _ := json.Marshal(cas)
+	out, err := exec.Command(interfBinary(), "interf-replay", c.Scratch, string(j)).CombinedOutput()
+	interfFile(c, out, err)
+}
+
+func interfFile(c *fw.Ctx, out []byte, err error) {
+	var rep interfReport
+	found := false
+	for _, l := range strings.Split(string(out), "\n") {
+		if strings.HasPrefix(l, "INTERF-REPORT ") {
+			found = json.Unmarshal([]byte(strings.TrimPrefix(l, "INTERF-REPORT ")), &rep) == nil
+		}
+	}
+	if !found {
+		tail := string(out)
+		if len(tail) > 600 {
+			tail = tail[len(tail)-600:]
+		}
+		c.Infra(fmt.Sprintf("interleavings of operations on disjoint objects: no report (%v): %s", err, tail))
+		return
+	}
+	if rep.Infra != "" {
+		c.Infra("interleavings of operations on disjoint objects: " + rep.Infra)
+		return
+	}
+	total := 0
+	for _, p := range rep.Pairs {
+		c.Eval(p.Schedules)
+		c.State(p.Schedules)
+		c.Trace(p.Schedules)
+		c.Transition(p.Points)
+		total += p.Schedules
+		c.Class("interleaved:" + strings.SplitN(p.A, ":", 2)[0] + "|" + strings.SplitN(p.B, ":", 2)[0])
+		if !p.Exhaustive {
+			c.NotExhaustive("interleavings of " + p.A + " ‖ " + p.B + ": deadline or un-modelled blocking")
+		}
+		if p.CapHits > 0 {
+			c.Note(fmt.Sprintf("interleavings of %s ‖ %s: in %d schedules a thread passed the cap of %d preemption points; later points of that thread were not preemption candidates", p.A, p.B, p.CapHits, rep.Cap))
+		}
+	}
+	if len(rep.Pairs) > 0 {
+		p := rep.Pairs[0]
+		c.Sample(map[string]interface{}{"interleaved_pair": []string{p.A, p.B}, "preemption_bound": p.Bound, "schedules": p.Schedules, "scheduling_points": p.Points})
+		c.Extra("statement_level_schedules", int64(total))
+		c.Note(fmt.Sprintf("statement-level interleavings of %d pairs of operations on disjoint objects: %d schedules, preemption bound %d; every result compared with the operation's result when run alone", len(rep.Pairs), total, p.Bound))
+	}
+	for _, v := range rep.Violations {
+		c.Report(v.Sig, v.Desc, v.Case)
+	}
+}
